@@ -69,6 +69,15 @@ func (r *RunFPP) PostProcessComponentFactory(f container.Factory) error {
 	return nil
 }
 
+// a runner that wires the application itself (container.Factory is implemented by the App alone) under a name that
+// sorts in front of the App's: its creation starts first and pulls the App in, whose runner list needs it back
+type RunAppRef struct {
+	zoo.Core
+	Fac container.Factory `wire:",required=false"`
+}
+
+func (r *RunAppRef) Run() error { return run(r.B) }
+
 // causeless: a legal error value whose Cause() is nil (e.g. an OpError without inner error).
 type causeless struct{ op string }
 
@@ -106,7 +115,7 @@ type ghost struct{ calls int }
 func (g *ghost) Run() error { g.calls++; return nil }
 
 type rspec struct {
-	Class int // 0 P, 1 O, 2 N, 3 lazy-unordered, 4 unordered + component post-processor, 5 unordered non-struct type, 6 unordered + factory post-processor, 7 unordered + every other role as well
+	Class int // 0 P, 1 O, 2 N, 3 lazy-unordered, 4 unordered + component post-processor, 5 unordered non-struct type, 6 unordered + factory post-processor, 7 unordered + every other role as well, 8 unordered, wires the App, created before it
 	Ord   int
 }
 
@@ -141,7 +150,7 @@ func TestRunners(t *testing.T) {
 		ids := make([]int, nr)
 		initFaults := 0
 		for i := range specs {
-			specs[i].Class = rapid.IntRange(0, 7).Draw(t, "class")
+			specs[i].Class = rapid.IntRange(0, 8).Draw(t, "class")
 			if specs[i].Class < 2 {
 				specs[i].Ord = ordGen.Draw(t, "ord")
 			}
@@ -172,6 +181,9 @@ func TestRunners(t *testing.T) {
 				}
 			case 6:
 				c = &RunFPP{Core: zoo.Core{B: b}}
+			case 8:
+				b.Alias = fmt.Sprintf("a-runner-%d", i) // sorts in front of github.com/go-kid/ioc/app/App
+				c = &RunAppRef{Core: zoo.Core{B: b}}
 			case 7:
 				// every role at once: runner, closer, component / factory post-processor, definition scanner
 				bb := b
@@ -188,6 +200,17 @@ func TestRunners(t *testing.T) {
 		zruns = [3]int{}
 		for i := 0; i < nz; i++ {
 			in.Extra = append(in.Extra, []any{&ZRun0{}, &ZRun1{}, &ZRun2{}}[i])
+		}
+		// now and then the AfterPropertiesSet of one eager node fails (its Init would succeed): the start fails
+		apsFault := ""
+		if rapid.IntRange(0, 7).Draw(t, "apsfault") == 0 {
+			for i, n := range s.Nodes {
+				if n.Variant != 'L' {
+					in.Behs[i].FailAPS = zoo.FailAlways
+					apsFault, _ = model.NameOf(in.Comps[i])
+					break
+				}
+			}
 		}
 		in.Extra = rapid.Permutation(in.Extra).Draw(t, "extraorder")
 		nobs := rapid.IntRange(0, 2).Draw(t, "nobs")
@@ -238,7 +261,10 @@ func TestRunners(t *testing.T) {
 			}
 		}
 		// a start that failed before the runner phase is C09's subject
-		preFailure := in.Out.Err != nil && len(seq) == 0 && (failing < 0 || initFaults > 0 || veto != "")
+		preFailure := in.Out.Err != nil && len(seq) == 0 && (failing < 0 || initFaults > 0 || veto != "" || apsFault != "")
+		if apsFault != "" && (in.Out.Err == nil || len(seq) > 0) {
+			t.Fatalf("C13: AfterPropertiesSet of the eager component %q failed, yet Run returned %v and %d runner(s) ran\n%s", apsFault, in.Out.Err, len(seq), desc)
+		}
 		if veto != "" && in.Out.Err == nil {
 			t.Fatalf("C13: a before-initialization hook failed for the eager component %q, yet Run returned nil and %d runner(s) ran\n%s", veto, len(seq), desc)
 		}
